@@ -45,6 +45,17 @@ def sites(tree, kind):
                 if not (names & bound) and isinstance(c.args[0], (ast.BinOp, ast.UnaryOp, ast.Compare)) and \
                         not any(isinstance(x, ast.Call) for x in ast.walk(c.args[0])):
                     out.append((n, c))
+        elif kind == "demorgan" and isinstance(n, ast.UnaryOp) and isinstance(n.op, ast.Invert) and isinstance(n.operand, ast.BinOp) and \
+                isinstance(n.operand.op, (ast.BitAnd, ast.BitOr)):
+            out.append(n)
+        elif kind == "cmpflip" and isinstance(n, ast.Compare) and len(n.ops) == 1 and isinstance(n.ops[0], (ast.Lt, ast.Gt, ast.LtE, ast.GtE)):
+            out.append(n)
+        elif kind == "constfold" and isinstance(n, ast.BinOp) and isinstance(n.left, ast.Constant) and isinstance(n.right, ast.Constant) and \
+                isinstance(n.left.value, int) and isinstance(n.right.value, int) and isinstance(n.op, (ast.Add, ast.Sub, ast.Mult)):
+            out.append(n)
+        elif kind == "elif2else" and isinstance(n, ast.Call) and isinstance(n.func, ast.Attribute) and n.func.attr == "Elif" and \
+                isinstance(n.func.value, ast.Call) and n.args:
+            out.append(n)
         elif kind == "swapstmt" and isinstance(n, ast.List) and len(n.elts) >= 2:
             for i in range(len(n.elts) - 1):
                 a, b = n.elts[i], n.elts[i + 1]
@@ -55,6 +66,20 @@ def sites(tree, kind):
                     if base(ta) != base(tb) and base(ta) not in rb and base(tb) not in ra:
                         out.append((n, i))
     return out
+
+
+def _replace(tree, old, new):
+    for p in ast.walk(tree):
+        for f, v in ast.iter_fields(p):
+            if v is old:
+                setattr(p, f, new)
+                return True
+            if isinstance(v, list):
+                for i, x in enumerate(v):
+                    if x is old:
+                        v[i] = new
+                        return True
+    return False
 
 
 def variant(rel, kind, idx):
@@ -68,6 +93,37 @@ def variant(rel, kind, idx):
     elif kind == "swapstmt":
         lst, i = s
         lst.elts[i], lst.elts[i + 1] = lst.elts[i + 1], lst.elts[i]
+    elif kind == "demorgan":
+        b = s.operand
+        new = ast.BinOp(left=ast.UnaryOp(op=ast.Invert(), operand=b.left), op=ast.BitOr() if isinstance(b.op, ast.BitAnd) else ast.BitAnd(),
+                        right=ast.UnaryOp(op=ast.Invert(), operand=b.right))
+        _replace(tree, s, new)
+    elif kind == "cmpflip":
+        flip = {ast.Lt: ast.Gt, ast.Gt: ast.Lt, ast.LtE: ast.GtE, ast.GtE: ast.LtE}
+        s.left, s.comparators[0] = s.comparators[0], s.left
+        s.ops[0] = flip[type(s.ops[0])]()
+    elif kind == "constfold":
+        v = {ast.Add: s.left.value + s.right.value, ast.Sub: s.left.value - s.right.value, ast.Mult: s.left.value * s.right.value}[type(s.op)]
+        _replace(tree, s, ast.Constant(value=v))
+    elif kind == "elif2else":
+        # only when nothing hangs from this Elif except at most one .Else(...)
+        par = None
+        for p in ast.walk(tree):
+            if isinstance(p, ast.Call) and isinstance(p.func, ast.Attribute) and p.func.value is s:
+                par = p
+        inner = ast.Call(func=ast.Name(id="If", ctx=ast.Load()), args=list(s.args), keywords=[])
+        if par is not None:
+            if par.func.attr != "Else":
+                return None
+            inner = ast.Call(func=ast.Attribute(value=inner, attr="Else", ctx=ast.Load()), args=list(par.args), keywords=[])
+            new = ast.Call(func=ast.Attribute(value=s.func.value, attr="Else", ctx=ast.Load()), args=[inner], keywords=[])
+            for pp in ast.walk(tree):
+                if isinstance(pp, ast.Call) and isinstance(pp.func, ast.Attribute) and pp.func.value is par:
+                    return None
+            _replace(tree, par, new)
+        else:
+            new = ast.Call(func=ast.Attribute(value=s.func.value, attr="Else", ctx=ast.Load()), args=[inner], keywords=[])
+            _replace(tree, s, new)
     elif kind == "splitlist":
         stmts = [ast.AugAssign(target=copy.deepcopy(s.target), op=ast.Add(), value=e) for e in s.value.elts]
         for p in ast.walk(tree):
@@ -146,7 +202,7 @@ def main():
     args = [a for a in sys.argv[1:] if not a.startswith("--")]
     opt = lambda k, d=None: sys.argv[sys.argv.index(k) + 1] if k in sys.argv else d
     limit = int(opt("--limit", "0")) or None
-    kinds = [opt("--kind")] if opt("--kind") else ["commute", "alias", "swapstmt", "splitlist", "combalias"]
+    kinds = [opt("--kind")] if opt("--kind") else ["commute", "alias", "swapstmt", "splitlist", "combalias", "demorgan", "cmpflip", "constfold", "elif2else"]
     pids = [a for a in args if a[0] == "C"] or [f"C{i:02d}" for i in range(1, 21)]
     jobs = []
     for pid in pids:
